@@ -65,6 +65,8 @@ pub fn exec(op: &str, a: &[String]) -> Option<Reply> {
 }
 
 pub fn generate(sink: &mut Sink, rng: &mut Rng, n: u64) {
+    // correspondence of the Lean signature model for the modelled functions (c03.sig / c03.decl / c03.run)
+    crate::c03decl::generate(sink, rng, n);
     let fns = vrl::stdlib::all();
     let per_fn = (n / fns.len() as u64).max(2);
     for f in &fns {
